@@ -10,7 +10,7 @@ CONSTANTS
   Kinds = {"insert", "ctas", "view", "update", "merge", "query", "delete", "select_into"}
   Known = {"D_CTE_VISIBLE_IN_OWN_BODY"}
   Emit = FALSE
-  Clauses = {"where", "isub", "having", "union", "paren", "on", "ubranch", "where2"}
+  Clauses = {"where", "isub", "having", "union", "paren", "on", "ubranch", "where2", "selfref"}
   DefSchemas = {"none", "s", "dflt_x"}
 INVARIANT Report
 CHECK_DEADLOCK FALSE
